@@ -151,3 +151,31 @@ class BlankHeaderInfo(Contract):
 
 for _d in ('heuristic', 'thorough', 'exhaustive', 'strip', 'bogus'):
     fuc(BLANK, props=['C11', 'C04'])(type('BlankHeaderInfo_' + _d, (BlankHeaderInfo,), dict(detection=_d, variant=_d)))
+
+
+# ---------------------------------------------------------------------------------------------
+# irregular surveys: the inferred axis of one direction (C08)
+
+class GetRange(Contract):
+    """InferredGeometry3d.get_range(ids) for the set of line numbers PRESENT on one axis.  Under the quantifier of C08 every line of
+    the grid still carries a trace, so ids = {a0 + k*d : 0 <= k < n} (n >= 2, d >= 1): the result is (a0, a0+(n-1)d, d) --
+    the axis's own origin, end and increment"""
+    may_raise = ()
+
+    def inputs(self, c):
+        from pyvc.models import SymIntSet
+        a0 = c.sym_int('a0', name='first_line_number'); d = c.sym_int('d', lo=1, name='line_increment'); n = c.sym_int('n', lo=2, name='n_lines')
+        return dict(ids=SymIntSet(a0, add(a0, mul(sub(n, 1), d)), n), _a=(a0, d, n))
+
+    def call_args(self, a):
+        return [a['ids']], {}, None
+
+    def post(self, c, a, result):
+        a0, d, n = a['_a']
+        c.ensure(mk_bool(isinstance(result, tuple) and len(result) == 3), 'returns_min_max_step')
+        c.ensure(eq(result[0], a0), 'min_is_the_first_line_number')
+        c.ensure(eq(result[1], add(a0, mul(sub(n, 1), d))), 'max_is_the_last_line_number')
+        c.ensure(eq(result[2], d), 'step_is_the_axis_own_increment')
+
+
+fuc('utils.py::InferredGeometry3d.get_range', props=['C08', 'C05'])(GetRange)
